@@ -3,7 +3,7 @@
 EXTRA_BUILDS = {}
 
 HOOK_COMMITS = ["7bc0d60"]
-FIX_COMMITS = ["243874c", "428186b", "52f0108", "243864d", "8c765f6", "203eb57"]
+FIX_COMMITS = ["243874c", "428186b", "52f0108", "243864d", "8c765f6", "203eb57", "7f74090", "7540dfb"]
 
 NOT_APPLICABLE = {}
 
@@ -238,5 +238,24 @@ CHECKS = {
                       "after restart; fault enumeration, not proof",
         "level_note": "trusted: the shim's fault injection; faults in syscalls the shim does not wrap are out of reach (none used by persistence.rs)",
         "technique": "runtime monitoring: fault injection at syscall level + model differential live and after restart",
+    },
+    "C13": {
+        "level": "fault_enumeration",
+        "rule": "one case = data directory produced by a seeded history (snapshots every 3-9 mutations or manual, rotation at 96-600 B, WAL "
+                "compaction, clean restarts) and shut down cleanly; then EVERY single fault of the enumeration: per file (MANIFEST, every listed "
+                "WAL segment, every snapshot) deletion; bit flips at each structural offset (WAL magic, every frame's 4 length bytes / first, "
+                "middle and last payload byte / 4 CRC bytes; snapshot magic, size, version, timestamp, doc_count, dimension, payload tail, CRC "
+                "and seeded payload bytes; every (3rd in quick) byte of MANIFEST) and seeded offsets; truncation to every frame boundary -1/0/+1, "
+                "to 0, to the header and seeded lengths. Strict recovery (in a subprocess when a corrupted size field could abort on allocation; "
+                "an abort is a refusal) must fail or return exactly the pre-damage collection; the property's exclusion is applied by effect "
+                "(only a suffix of the NEWEST listed segment lost, judged with an independent reference replay). distinct_nontrivial = distinct "
+                "(case, fault) pairs",
+        "legs": [{"name": "single-faults", "argv": ["c13"], "shards": 16}],
+        "assumptions": COMMON_ASSUME + ["the harness's reference replay of the undamaged directory must equal the model (else the case is inconclusive)"],
+        "min_evaluations": 1000,
+        "level_text": "enumeration of single storage faults (structural bit flips, truncations, deletions) on directories from seeded histories, each "
+                      "decided by the real strict recovery against the pre-damage model; fault enumeration over sampled directories, not proof",
+        "level_note": "multi-fault damage and faults at non-enumerated offsets are out of reach; server start-up policy (MANIFEST deleted) is judged in the server leg",
+        "technique": "runtime monitoring: single-fault injection on persisted state + recovery oracle",
     },
 }
